@@ -107,6 +107,26 @@ def pytest_configure(config):
                     table[k] = w
 
 
+    # every Evaluator.evaluate() of the suite (nested ones included) as a local-consistency event (harness/evalrec.py)
+    global _evalrec, _evalout
+    if os.environ.get('VERIF_REC_EVAL'):
+        from harness import evalrec
+        _evalout = open(f'{path}.eval.{worker}', 'w')
+
+        def sink(e):
+            e['test'] = os.environ.get('PYTEST_CURRENT_TEST', '')[:120]
+            _evalout.write(json.dumps(e, separators=(',', ':')) + '\n')
+        _evalrec = evalrec.LocalRecorder(sink=sink, limit=MAX_EVENTS)
+        _evalrec.__enter__()
+
+
+_evalrec = None
+_evalout = None
+
+
 def pytest_unconfigure(config):
     if _out is not None:
         _out.close()
+    if _evalrec is not None:
+        _evalrec.__exit__(None, None, None)
+        _evalout.close()
